@@ -13,6 +13,11 @@
 //!        replays request sequences (TLC-generated scripts / simulated behaviours / replay
 //!        files) from a fresh node and records one step per request.
 //!
+//! Requests "NodeKey" (what the node hands out: node id, bolt12 / persistence keys, onion secret,
+//! account xpub, wallet addresses, LDK shutdown script, heartbeat key) and "Ref" (a term of
+//! Keys.tla over HKDF / BIP32 primitives, evaluated for the node's seed and network) return opaque
+//! tokens that TLC compares for equality.
+//!
 //! No property logic here: the binary applies requests to the real crates, records what was
 //! returned (keys as interned byte strings) and a projection of the state.  TLC judges.
 use std::collections::{BTreeMap, HashMap};
